@@ -263,7 +263,8 @@ def write_evidence(pid, tier, seed, P, units, ev, outcome, wall, partial=False):
     us = ev["units"]
     obligations = sum(u.get("checks", 0) for u in us)
     discharged = sum(u.get("discharged", 0) for u in us)
-    nontrivial = sum(1 for u in us if u["status"] == "pass" and (u["engine"] == "M" or all(s == "SATISFIED" for s in u.get("covers", {}).values())))
+    nontrivial = sum(1 for u in us if (u["status"] == "pass" and (u["engine"] == "M" or all(s == "SATISFIED" for s in u.get("covers", {}).values())))
+                     or (u["status"] == "fail" and u.get("replays")))
     samples = []
     for u in us[:60]:
         samples.append({"unit": u["unit"], "engine": u["engine"], "status": u["status"], "what": u.get("what", ""),
@@ -278,7 +279,7 @@ def write_evidence(pid, tier, seed, P, units, ev, outcome, wall, partial=False):
             "evaluations": max(1, len(us)),
             "distinct_nontrivial": nontrivial,
             "rule": "one evaluation = one solver-decided unit (a Kani proof harness over symbolic inputs, or one engine-M SMT query family); "
-                    "non-trivial = verdict pass AND every reachability witness (kani::cover / path-family non-emptiness) satisfied",
+                    "non-trivial = verdict pass AND every reachability witness (kani::cover / path-family non-emptiness) satisfied, or verdict fail with a counterexample that was re-executed natively",
             "obligations": obligations,
             "discharged": discharged,
             "samples": samples,
